@@ -6,6 +6,7 @@ mod keytab;
 mod overrides;
 mod paired;
 mod parseprobe;
+mod reload;
 mod seqtab;
 mod sim;
 mod switchtv;
@@ -350,6 +351,8 @@ fn main() {
         "cfgeq" => cfgeq::cmd(rest),
         "crash" => crash::cmd_crash(rest),
         "paired" => paired::cmd_paired(rest),
+        "reload" => reload::cmd(rest),
+        "reload-edges" => reload::cmd_edges(rest),
         "parse-probe" => parseprobe::cmd_parse_probe(rest),
         "lex-enum" => parseprobe::cmd_lex_enum(rest),
         "sexpr-tree" => parseprobe::cmd_sexpr_tree(rest),
